@@ -162,8 +162,9 @@ def guard_tightness(chk, fx, rule):
     """pdu::reader: a guard demanding a constant number of bytes demands no more than is read before the next guard on that cursor or the
     end of the loop iteration -- an over-strict guard rejects the shortest valid encoding (a PDV without data, a last item ...)"""
     from . import budget
-    chk.rule(rule, "every constant-size availability guard of pdu::reader (`remaining() >= N`, named constants evaluated) is exact: the N bytes are all read before "
-                   "the next guard on the cursor / the end of the loop iteration, so the shortest valid item is still accepted")
+    chk.rule(rule, "every availability guard of pdu::reader (`remaining() >= N`, N constant or symbolic, named constants evaluated) is exact: no constant number of "
+                   "demanded bytes is still unread at the next guard on the cursor, the start of a loop over it, the end of the branch / loop iteration or a successful "
+                   "return, so the shortest valid item is still accepted")
     d = fx.crate("dicom_ul")
     n = 0
     for h in d["hir"]:
@@ -178,7 +179,7 @@ def guard_tightness(chk, fx, rule):
             ordn[k] = ordn.get(k, 0) + 1
             chk.expect(g["slack"] is None, rule, short, f"{g['cursor']}.remaining()>={g['need']}#{ordn[k]}", "all demanded bytes are read before the next guard", g["slack"],
                        loc=f"{h['loc']['f']}:{g['line']}")
-    chk.floor(rule, "constant-size guards in pdu::reader", n, 34)
+    chk.floor(rule, "availability guards in pdu::reader", n, 48)
 
 
 def max_pdu(chk, fx, rule):
